@@ -86,6 +86,20 @@ let () = read_lines_iter (fun line ->
        (match rest with h :: _ when h <> "-" -> add_handle h w | _ -> ());
        if ismod then Printf.printf "old=%s new=%d\n" (vopt old) (int_of_n nv)
        else Printf.printf "old=%s\n" (vopt old))
+  | [("tins" | "tmod" | "tdel" as w); k; v; nv] ->
+    (* Tree.Insert / Modify / Delete: tree_txn on the head version, one write, commit and notify *)
+    (match Hashtbl.find_opt versions !head, !live with
+     | Some t, None ->
+       pending := None;
+       let x = tree_txn t !next in
+       let (x1, old) =
+         if w = "tdel" then txn_delete x (bytes_of_hex k)
+         else (let (((x', old), _), _) = txn_modify x (if w = "tmod" then Some mod_fun else None) (bytes_of_hex k) (n_of_int (int_of_string v)) in (x', old)) in
+       sync_next x1;
+       let ((x2, t'), cl) = txn_commit_notify x1 in
+       sync_next x2; close_all cl; live := None; pending := None; head := nv; add_version nv t';
+       Printf.printf "old=%s\n" (vopt old)
+     | _ -> e ())
   | ["del"; k] ->
     (match !live with
      | None -> e ()
